@@ -17,6 +17,8 @@ DOC = {
     'numpy.random.shuffle': 'np.random.shuffle(x): in-place application of an ARBITRARY permutation (havoc)',
     'numpy.random.randint': 'np.random.randint(lo,hi,size=m): ANY integer array of length m with lo <= entries < hi (havoc)',
     'numpy.array': 'np.array(list): same elements',
+    'numpy.sqrt': 'np.sqrt(m) for an integer m >= 0 is the non-negative real root (exact float assumption below 2^52)',
+    'numpy.ceil': 'np.ceil(np.sqrt(m)) is the least integer c with c*c >= m (exact float assumption below 2^52)',
     'numpy.kron': 'np.kron(a,b) of 1-D arrays: entry t = a[t div len(b)] * b[t mod len(b)]',
     'numpy.zeros': 'np.zeros / np.empty / np.ones: fresh array of the given shape',
     'copy.deepcopy': 'deepcopy(x): fresh object equal to x',
@@ -77,7 +79,7 @@ def install(E):
         if isinstance(x, (int, float)):
             import math
             return float(math.floor(x))
-        if isinstance(x, SV) and x.kind == 'real' and x.ratio is not None:
+        if isinstance(x, SV) and x.kind == 'real' and x.ratio is not None and not isinstance(x.ratio[0], str):
             a, b = x.ratio
             st, _, _ = E.prove(z3.And(a >= 0, b > 0))
             if st == 'proved':
@@ -88,6 +90,32 @@ def install(E):
             return SV(z3.ToInt(x.z), 'int')
         return E.app('numpy.floor', [x])
     L['numpy.floor'] = np_floor
+
+    def np_sqrt(E, x):
+        if isinstance(x, (int, float)) and not isinstance(x, bool):
+            import math
+            return math.sqrt(x)
+        if isinstance(x, SV) and x.kind == 'int':
+            r = z3.Real(fresh_name('sqrt'))
+            E.fact(z3.Implies(x.z >= 0, z3.And(r >= 0, r * r == z3.ToReal(x.z))))
+            return SV(r, 'real', ratio=('sqrt', x.z))
+        return E.app('numpy.sqrt', [x])
+    L['numpy.sqrt'] = np_sqrt
+
+    def np_ceil(E, x):
+        if isinstance(x, (int, float)) and not isinstance(x, bool):
+            import math
+            return float(math.ceil(x))
+        if isinstance(x, SV) and x.kind == 'real' and x.ratio is not None and x.ratio[0] == 'sqrt':
+            m = x.ratio[1]
+            c = z3.Int(fresh_name('ceilsqrt'))
+            # exact-float assumption: ceil(sqrt(m)) is the least integer c with c*c >= m (m below 2^52)
+            E.fact(z3.Implies(m >= 0, z3.And(c >= 0, c * c >= m, z3.Or(c == 0, (c - 1) * (c - 1) < m))))
+            return SV(c, 'int')
+        if isinstance(x, SV) and x.kind == 'int':
+            return x
+        return E.app('numpy.ceil', [x])
+    L['numpy.ceil'] = np_ceil
 
     def np_concatenate(E, parts, *a, **kw):
         if a or kw:
